@@ -33,9 +33,12 @@ P = {
     "theorems_module": "Properties.C20",
     "theorems": ["C20_load_meets_spec", "C20_env_order_independent", "C20_env_wins_per_leaf", "C20_defaults_fill",
                  "C20_file_env_equivalent", "C20_file_env_equivalent_splits", "C20_env_name_read_back", "C20_merge_later_wins_no_panic", "C20_merge_panic_iff", "C20_in_scope_b_sound", "C20_guard_F4n_narrower",
+                 "C20_domain_in_domainN", "C20_load_meets_spec_F4n", "C20_env_order_independent_F4n", "C20_env_wins_per_leaf_F4n",
+                 "C20_defaults_fill_F4n", "C20_file_env_equivalent_F4n", "C20_file_env_equivalent_splits_F4n", "C20_file_env_equivalent_splits_F4s",
+                 "C20_merge_dotted_keys", "C20_domainN_nonvacuous", "C20_split_example_F4n", "C20_split_guard_example",
                  "C20_domain_nonvacuous", "C20_split_example", "C20_schema_loader_agree", "C20_tables_agree_accept_equal",
                  "C20_schema_loader_accept_equal",
-                 "C20_F1_refuted", "C20_F1_rows_all_disagree", "C20_F3_pinned_refuted", "C20_F3_repaired_on_witness", "C20_F4_refuted"],
+                 "C20_F1_refuted", "C20_F1_rows_all_disagree", "C20_F3_pinned_refuted", "C20_F3_repaired_on_witness", "C20_F4_refuted", "C20_F4_sharing_refuted"],
     "streams": [{
         "name": "tree", "pkg": "./internal/config/parser", "test": "TestVerifC20",
         "overlay": {"internal/config/parser/zz_verif_c20_test.go": "c20/c20_tree_test.go"},
@@ -81,9 +84,14 @@ P = {
                   "maps.Unflatten and merge-function Load): for all defaults, file trees and environments of the property's domain "
                   "(scalar values, well-formed names, no two variables for one leaf, all sources agreeing on the shape at every "
                   "path) outside the shape of the open finding C20-F4 (and, for the code before the repair 0f39207 only, of C20-F3: "
-                  "the theorems are parametric in `fix3`, /repo is `fix3 = true`), and for every iteration order of every Go map on "
+                  "the first block of theorems is parametric in `fix3`, /repo is `fix3 = true`), and for every iteration order of every Go map on "
                   "the way, the loaded tree shows at every path the environment's node if there is one, else the file's, else "
-                  "the default's (C20_load_meets_spec); corollaries: independence of the enumeration order, environment wins per "
+                  "the default's (C20_load_meets_spec, under the syntactic guard_F4 = no name continues with two or more name "
+                  "segments below a list index; C20_load_meets_spec_F4n for the code as it is under the narrowed guard_F4n = the "
+                  "defect's own shape: such a name — MECHANISMS_AUTHENTICATORS_0_CONFIG_USER — is inside the theorem whenever "
+                  "defaults or file hold a map at that list element and no other variable shares the element and the first name "
+                  "segment; proved by following convert's dotted key through koanfFromEnv and mergeMaps' Unflatten-on-source to "
+                  "the last merge, coq/C20/Dotted*.v); corollaries (these five in both versions): independence of the enumeration order, environment wins per "
                   "leaf, defaults fill, file/environment equivalence for every (file, environment) pair that together shows the "
                   "configuration and concretely for every subset of its leaves moved to the environment (keep/sel_leaves, lists "
                   "and nested structures included); the documented naming rule (prefix, _ separator, __ for a literal "
@@ -94,10 +102,19 @@ P = {
                   "`<any>`), with the disagreeing rows recorded as C20-F1 in groups a, b, c (all fixed), each with its own repair flag.  The model is tied to the code by running both on ~1200 (quick) / 30000 (thorough) generated loads per "
                   "run, now ~1000 quick (every observed outcome over 6-30 repetitions must be an outcome of the model for some iteration order) and "
                   "by replaying ~60 table-derived probes through the real schema validator and the real mechanism loader.",
-    "level_note": "Of the 21 entries in Properties/C20.v nine are vm_compute witnesses/examples (refuted, repaired-on-witness, non-vacuity, "
-                  "split example, the two table statements), one is plumbing (in_scope_b_sound), one relates the two F4 guards; the "
-                  "general content is in the other ten.  The theorems cover names outside the syntactic C20-F4 shape; names of that shape "
-                  "whose list element exists (outside guard_F4n) are checked on every run (property must hold, all orders), not proved.  "
+    "level_note": "Of the 34 entries in Properties/C20.v thirteen are vm_compute witnesses/examples (refuted, repaired-on-witness, non-vacuity "
+                  "incl. the three F4n/F4s examples, split examples, the two table statements), one is plumbing (in_scope_b_sound), two relate "
+                  "the two F4 guards / domains; the general content is in the other eighteen (ten under the syntactic guard_F4 and "
+                  "parametric in fix3, seven restated under the narrowed guard for fix3 = true, and the merge theorem for trees "
+                  "with dotted keys).  With the _F4n block, names of the C20-F4 shape whose list element exists as a map in defaults or "
+                  "file and that are alone at their first name segment are PROVED (all map orders, all permutations), no longer only "
+                  "checked on every run; what stays outside every theorem is exactly where guard_F4n fires (the finding: element absent, "
+                  "or two variables sharing element and first name segment, e.g. ..._0_CONFIG_USER + ..._0_CONFIG_PASSWORD, where the "
+                  "model too loses one of them for some map order) and, for the F4n block, the code before 0f39207 (fix3 = false).  "
+                  "For splits the guard is evaluated on the remaining file keep_map sel c (C20_file_env_equivalent_splits_F4n); "
+                  "keep never removes a map or a list, so only the sharing clause can fire there, and "
+                  "C20_file_env_equivalent_splits_F4s states the splits theorem with that clause alone (guard_F4s, a condition on "
+                  "the variables only).  "
                   "Trusted: Coq kernel/vm_compute; the correspondence harness (generators, decode-hook capture of the merged tree, "
                   "Gallina rendering); YAML scalar typing is an oracle (observed per case); the sha256 key suffix is modelled by its "
                   "pre-image; mapstructure decoding into the Configuration struct is not modelled (the observable is the tree handed "
